@@ -279,6 +279,33 @@ def r17_4(run):
            message='TorOnionAddress no longer derives onion_uri from _maybe_unique_host(service) for authenticated services')
 
 
+def late_definitions(run, rid, unit, g, raises, floor):
+    """a refusal looks at the final value of what it tests: no option is (re)computed after a test that refuses it
+    (the deprecated stealth_auth= is turned into auth= before auth is validated; privateKeyFile= is loaded into
+    privateKey before privateKey is validated)"""
+    kk = 0
+    for r in raises:
+        for t in g.live:
+            if t.kind != 'test' or not any(g.edge_dominates(t, lab, r) for lab in ('T', 'F')):
+                continue
+            names = set(x.id for x in ast.walk(t.ast) if isinstance(x, ast.Name) and x.id in unit.params)
+            after = g.reachable([x for _, x in t.succ], follow_exc=False)
+            for n in after:
+                if n.kind == 'stmt' and isinstance(n.ast, (ast.Assign, ast.AugAssign)):
+                    hit = names & set(assigned_targets(n.ast))
+                    # a test inside the same conditional block as the definition belongs to that normalisation step
+                    shared = any(g.edge_dominates(t2, lab, t) and g.edge_dominates(t2, lab, n)
+                                 for t2 in g.live if t2.kind == 'test' and t2 is not t for lab in ('T', 'F'))
+                    # clearing a consumed argument / folding a flag into a bool is not a recomputation
+                    trivial = is_none(n.ast.value) or isinstance(const(n.ast.value), bool)
+                    if hit and not trivial and not shared:
+                        run.ob(rid, unit, n.ast, 'an option is not recomputed after the test that validates it', False, slot='late-definition:%s@%s' % (sorted(hit)[0], unit.name),
+                               message='%s tests %s and only afterwards sets %s = %s: the refusal never sees that value, so the invalid combination is accepted '
+                                       'and fails only after something has been started' % (unit.short, src(t.ast)[:50], sorted(hit)[0], src(n.ast.value)[:40]))
+            kk += 1
+    run.floor(rid, 'validation tests examined for late definitions in %s' % unit.name, kk, floor)
+
+
 def r17_5(run):
     init = run.idx.find_method(EP(run), '__init__')
     g = cfg_of(init)
@@ -297,28 +324,7 @@ def r17_5(run):
         before = [s for s in se if r in g.reachable([x for _, x in s.succ])]
         run.ob('R17.5', init, r.ast, 'invalid option combinations are refused before anything is started', not before, slot='refuse-first:%s' % src(r.ast)[:50],
                message='__init__ can raise %s after %s' % (src(r.ast)[:40], [src(s.ast)[:40] for s in before]))
-    # a refusal looks at the final value of what it tests: no option is (re)computed after a test that refuses it
-    # (the deprecated stealth_auth= is turned into auth= before auth is validated)
-    kk = 0
-    for r in raises:
-        for t in g.live:
-            if t.kind != 'test' or not any(g.edge_dominates(t, lab, r) for lab in ('T', 'F')):
-                continue
-            names = set(x.id for x in ast.walk(t.ast) if isinstance(x, ast.Name) and x.id in init.params)
-            after = g.reachable([x for _, x in t.succ], follow_exc=False)
-            for n in after:
-                if n.kind == 'stmt' and isinstance(n.ast, (ast.Assign, ast.AugAssign)):
-                    hit = names & set(assigned_targets(n.ast))
-                    # clearing a consumed deprecated argument is not a recomputation
-                    # a test inside the same conditional block as the definition belongs to that normalisation step
-                    shared = any(g.edge_dominates(t2, lab, t) and g.edge_dominates(t2, lab, n)
-                                 for t2 in g.live if t2.kind == 'test' and t2 is not t for lab in ('T', 'F'))
-                    if hit and not is_none(n.ast.value) and not shared:
-                        run.ob('R17.5', init, n.ast, 'an option is not recomputed after the test that validates it', False, slot='late-definition:%s' % sorted(hit)[0],
-                               message='__init__ tests %s and only afterwards sets %s = %s: the refusal never sees that value, so the invalid combination is accepted '
-                                       'and fails only once a listener is open' % (src(t.ast)[:50], sorted(hit)[0], src(n.ast.value)[:40]))
-            kk += 1
-    run.floor('R17.5', 'validation tests examined for late definitions', kk, 4)
+    late_definitions(run, 'R17.5', init, g, raises, 4)
     # the documented refusals exist
     combos = {'stealth+ephemeral': ("AuthStealth", 'ephemeral'), 'dir+ephemeral': ('hidden_service_dir is not None', 'ephemeral'),
               'key+filesystem': ('private_key is not None', 'not ephemeral'), 'single_hop+filesystem': ('single_hop', 'not ephemeral'),
@@ -348,6 +354,7 @@ def r17_5(run):
                                                                                                       'TCPHiddenServiceEndpoint.global_tor', 'TCPHiddenServiceEndpoint.private_tor')
                                                    for a in node_asts(n))]
     run.floor('R17.5', 'validation raises in parseStreamServer', len(raises2), 4)
+    late_definitions(run, 'R17.5', ps, g2, raises2, 4)
     for r in raises2:
         before = [s for s in starts if r in g2.reachable([x for _, x in s.succ])]
         ok = not before or all(isinstance(s.ast, ast.Assign) and 'clientFromString' in src(s.ast) for s in before)
@@ -390,6 +397,8 @@ def r17_7(run):
     from . import c15
     borrow(run, c15.r15_1, 'R17.7')
     borrow(run, c15.r15_5, 'R17.7')
+    # ... and whether it fails at all when every upload failed (listen() must then fail and release its listener)
+    borrow(run, c15.r15_7, 'R17.7')
 
 
 def r17_6(run):
@@ -425,6 +434,7 @@ RULES = [
 from ..selftest import M  # noqa: E402
 F = 'txtorcon/endpoints.py'
 MUTANTS = [
+    M('keyfile-loaded-after-conflict-test', F, ["        if privateKeyFile is not None:\n            if privateKey is not None:", "        if hiddenServiceDir is not None and privateKey is not None:\n            raise ValueError(\n                \"Only one of hiddenServiceDir and privateKey/privateKeyFile accepted\"\n            )\n\n        if singleHop is not None:"], ["        if hiddenServiceDir is not None and privateKey is not None:\n            raise ValueError('conflict')\n        if privateKeyFile is not None:\n            if privateKey is not None:", "        if singleHop is not None:"], ['R17.5']),
     M('auth-address-no-uri', F, "            try:\n                self.onion_uri = _maybe_unique_host(hs)\n            except ValueError:", "            try:\n                _maybe_unique_host(hs)\n            except ValueError:", ['R17.4']),
     M('config-bootstrap-removed', F, "        yield self._config.post_bootstrap\n", "", ['R17.6']),
     M('handler-swallows', F, "                yield defer.maybeDeferred(port.stopListening)\n                raise\n", "                yield defer.maybeDeferred(port.stopListening)\n", ['R17.6', 'R17.3']),
